@@ -207,8 +207,8 @@ def main(tier):
     from vf.ref.dsl import Program, If, Cmp, Id, Lit, relabel
     from vf.families.programs import R
     for n in C07.generated_vocabulary():
-        if n in C07.HELPERS or n in C07.RESERVED:
-            continue
+        if n in C07.HELPERS or n in C07.RESERVED or C07.resolved_at_run_time(n):
+            continue        # shadowing a name the generated code resolves: C07's recorded finding, whatever the helper is called
         for op in ("==", ">", "in"):
             rhs = Lit(1) if op != "in" else dsl.Tup((Lit(1), Lit(2)))
             body = If(((Cmp(Id(n), op, rhs), R()),), R())
